@@ -27,6 +27,8 @@ import (
 type e7slice = LogRecordSlice
 type e7elem = LogRecord
 
+const e7typeName = "plog.LogRecordSlice"
+
 const e7f1IsValue = true
 
 func e7newRoot() (e7slice, func()) {
@@ -204,8 +206,50 @@ func TestVerifC07Elem(t *testing.T) {
 		stat := map[string]int{}
 		nt := false
 		ready := 0
+		ro := make([]bool, h)
+		// judge: the harness's own read-only oracle.  A mutator targeting a read-only payload must panic; nothing else may
+		// (in particular CopyTo FROM a read-only source into a mutable destination is a READER); a panicking call changes nothing.
+		judge := func(line string, panicked bool, before, after string) {
+			f := strings.Fields(line)
+			if len(f) < 3 {
+				return
+			}
+			op := f[1]
+			idx := func(i int) int { n := 0; fmt.Sscanf(f[i], "%d", &n); return n }
+			expect, reader := false, false
+			switch op {
+			case "copylist", "copyval":
+				expect = ro[idx(4)]
+				reader = ro[idx(2)] && !expect
+			case "moveappend":
+				expect = ro[idx(2)] || ro[idx(4)]
+			case "markro", "setroot":
+			default:
+				expect = ro[idx(2)]
+			}
+			what := map[string]string{"copylist": "CopyTo", "copyval": "CopyTo[element]", "moveappend": "MoveAndAppendTo", "appendrec": "AppendEmpty",
+				"removeif": "RemoveIf", "ensurecap": "EnsureCapacity", "remove": "Remove", "clear": "Clear", "setslot": "Set", "bapp": "Append"}[op]
+			if op == "copylist" && len(f) > 3 && f[3] != "-" {
+				what = "CopyTo[owned map]"
+			}
+			switch {
+			case panicked && reader:
+				out.Linef("viol sig=C07/readonly/reader-panicked/%s.%s %s", e7typeName, what, line)
+			case panicked && !expect:
+				out.Linef("viol sig=C07/elem/%s-unexpected-panic/%s %s", op, e7typeName, line)
+			case !panicked && expect:
+				out.Linef("viol sig=C07/elem/%s-missing-panic-on-read-only/%s %s", op, e7typeName, line)
+			}
+			if panicked && before != after {
+				out.Linef("viol sig=C07/readonly/panicking-op-changed-something/%s.%s %s", e7typeName, what, line)
+			}
+			if op == "markro" {
+				ro[idx(2)] = true
+			}
+		}
 		emit := func(line string, f func()) {
 			panicked := false
+			beforeDump := e7dump(sl, ready, false)
 			func() {
 				defer func() {
 					if r := recover(); r != nil {
@@ -216,6 +260,7 @@ func TestVerifC07Elem(t *testing.T) {
 			}()
 			out.Linef("%s", line)
 			out.Linef("%s", e7dump(sl, ready, panicked))
+			judge(line, panicked, beforeDump, e7dump(sl, ready, false))
 			stat["op_"+strings.Fields(line)[1]]++
 			if panicked {
 				stat["panics"]++
@@ -224,6 +269,7 @@ func TestVerifC07Elem(t *testing.T) {
 		// emitCap: the op line needs a capacity observed AFTER the call
 		emitCap := func(prefix string, capOf func() int, f func()) {
 			panicked := false
+			beforeDump := e7dump(sl, ready, false)
 			func() {
 				defer func() {
 					if r := recover(); r != nil {
@@ -239,6 +285,7 @@ func TestVerifC07Elem(t *testing.T) {
 			}()
 			out.Linef("%s cap=%d", prefix, cp)
 			out.Linef("%s", e7dump(sl, ready, panicked))
+			judge(prefix, panicked, beforeDump, e7dump(sl, ready, false))
 			stat["op_"+strings.Fields(prefix)[1]]++
 			if panicked {
 				stat["panics"]++
@@ -348,7 +395,7 @@ func TestVerifC07Elem(t *testing.T) {
 					stat["moveappend_into_never_used"]++
 				}
 				emitCap(fmt.Sprintf("op moveappend %d - %d -", a, b), func() int { return e7cap(sl[b]) }, func() { sl[a].MoveAndAppendTo(sl[b]) })
-			case step > 2*length/3 && rnd.IntN(2) == 0:
+			case step > length/2 && rnd.IntN(2) == 0:
 				emit(fmt.Sprintf("op markro %d", a), func() { markRO[a]() })
 			}
 		}
